@@ -180,3 +180,49 @@ func Delete(table string, where *parser.BinaryOpExpression) *parser.QueryInfo {
 	}
 	return qi
 }
+
+// SelectJoin: SELECT <fields> FROM t1 JOIN t2 ON l = r [WHERE ...]; fields and ON columns are written qualified.
+func SelectJoin(t1, t2 string, fields [][2]string, onL, onR string, where *parser.BinaryOpExpression) *parser.QueryInfo {
+	qi := parser.NewRootSQLVisitor().QueryInfo
+	*qi.QueryType = parser.SELECT
+	qi.JoinTables_ = []*string{sp(t1), sp(t2)}
+	for _, f := range fields {
+		qi.SelectFields = append(qi.SelectFields, &parser.SelectFieldExpression{IsAgg: false, AggType: 0, TableName: sp(f[0]), ColName: sp(f[1])})
+	}
+	qi.OnExpressions = &parser.BinaryOpExpression{LogicalOperationType: -1, ComparisonOperationType: expression.Equal, Left: sp(onL), Right: sp(onR)}
+	if where != nil {
+		qi.WhereExpression = where
+	}
+	return qi
+}
+
+// Pins returns the pin count of every resident page that is pinned.
+func (db *DB) Pins() map[types.PageID]int32 {
+	m := map[types.PageID]int32{}
+	for _, pg := range db.Shi.GetBufferPoolManager().GetPages() {
+		if pg != nil && pg.PinCount() != 0 {
+			m[pg.GetPageID()] += pg.PinCount()
+		}
+	}
+	return m
+}
+
+func SamePins(a, b map[types.PageID]int32) bool {
+	if len(a) != len(b) {
+		return false
+	}
+	for k, v := range a {
+		if b[k] != v {
+			return false
+		}
+	}
+	return true
+}
+
+// UpdateStats does what the statistics updater thread does for one table.
+func (db *DB) UpdateStats(table string) {
+	tm := db.Cat.GetTableByName(table)
+	txn := db.Shi.GetTransactionManager().Begin(nil)
+	tm.GetStatistics().Update(tm, txn)
+	db.Shi.GetTransactionManager().Commit(db.Cat, txn)
+}
